@@ -5,6 +5,8 @@ import Deb822Verif.Lemmas.RelEditHist
 import Deb822Verif.Lemmas.RelEditHandles
 import Deb822Verif.Lemmas.RelEditOracle
 import Deb822Verif.Lemmas.RelEditSpecs
+import Deb822Verif.Lemmas.RelEditInj
+import Deb822Verif.Lemmas.RelEditStruct
 import Deb822Verif.Props.C10
 /-!
 # C11 — editing relationship fields keeps them well-formed and matches a list model
@@ -608,6 +610,26 @@ theorem C11_history_refines (f f' : Field) (os : List IOp) (hs : Shaped f.kids) 
   exact ⟨H.items, H.tags, fun i id rs => H.entry_reads i id rs, fun i j rid t rs => H.rel_reads i j rid t rs,
     H.hok, H.shaped, hd.1, hd.2⟩
 
+/-- with distinct live handles on distinct nodes (`HInj`, true of handles taken one per node, kept by
+    every operation) the oracle theorem speaks about EVERY live handle: after the history the handles
+    are still apart, and for every live entry handle `(id, at p)` the model carries `id` on the entry
+    `get_entry(i)` finds at `p`, whose node reads the model's entry `i`; for every live relation handle
+    `(rid, at p q)` the model carries `rid` on alternative `j` of that entry -/
+theorem C11_history_live_handles (f f' : Field) (os : List IOp) (hs : Shaped f.kids) (hk : HOk f) (hi : HInj f)
+    (ho : ∀ o ∈ os, o.ok) (h : irun f os = .ok f') :
+    let M' := mrun ⟨abs f.root, shapeOf f⟩ os
+    HInj f'
+    ∧ (∀ id p, (id, ERef.at p) ∈ f'.ehs →
+        ∃ i rs e, nthNode .ENTRY f'.kids i = some p ∧ Sh.entry? M'.tags i = some (some id, rs)
+          ∧ f'.kids[p]? = some e ∧ S.entry? M'.items i = some (relsOf e))
+    ∧ (∀ rid p q, (rid, RRef.at p q) ∈ f'.rhs →
+        ∃ i j t rs, nthNode .ENTRY f'.kids i = some p ∧ nthNode .RELATION (f'.entryKids p) j = some q
+          ∧ Sh.entry? M'.tags i = some (t, rs) ∧ rs[j]? = some (some rid)) := by
+  have H0 : HRel f ⟨abs f.root, shapeOf f⟩ := ⟨rfl, rfl, hs, hk⟩
+  have H := hrel_run f f' _ os H0 ho h
+  have hi' := hinj_irun f f' os hi h
+  exact ⟨hi', fun id p hm => H.live_entry hi' id p hm, fun rid p q hm => H.live_rel hi' rid p q hm⟩
+
 /-- one call: the step relation of the oracle (`HRel` is kept by every call that returns) -/
 theorem C11_history_step (f f' : Field) (M : LModel) (o : IOp) (H : HRel f M) (ho : o.ok)
     (h : istep f o = .ok f') : HRel f' (mstep M o) := hrel_step f f' M o H ho h
@@ -659,6 +681,12 @@ theorem C11_relAt_addr (a : FieldA) (i j : Nat) (rj : RelA) (gj : Gap) (flj : Fo
   · show (pre' ++ rj.node (tailOf rj gj flj) :: post')[pre'.length]? = _
     simp
 
+/-- the converse of `C11_relAt_addr`: what `get_entry(i)` / `get_relation(j)` find in the tree of a
+    well-formed field is an alternative of the grammar -/
+theorem C11_addr_relAt (a : FieldA) (hwf : a.WF) (f : Field) (hf : f.kids = a.tree.children) (i j p q : Nat)
+    (hA : Addr f i j p q) : ∃ rj gj flj, relAtSegs a.segs i j = some (rj, gj, flj) :=
+  relAt_of_addr a hwf f hf i j p q hA.1 hA.2
+
 /-- `C11_reread` without its condition, for the relation setters on ANY well-formed field: the edited
     tree prints a well-formed field and re-reads, without error, to the list-model result -/
 theorem C11_reread_setters_wf (a : FieldA) (hwf : a.WF) (allow : Bool) (ha : allow = true ∨ a.hasSubstvar = false)
@@ -685,6 +713,89 @@ theorem C11_reread_setters_wf (a : FieldA) (hwf : a.WF) (allow : Bool) (ha : all
     fun g hv => key _ _ (spec_addProfile rj gj flj g hr hg hv)⟩
   obtain ⟨r', hs⟩ := spec_setVersion_some rj gj flj c v hr hg hv
   exact key _ _ ⟨r', gj, hs⟩
+
+/-- `C11_reread_setters_wf` with the hypothesis on the tree side: any address `get_entry(i)` /
+    `get_relation(j)` resolves to -/
+theorem C11_reread_setters_addr (a : FieldA) (hwf : a.WF) (allow : Bool) (ha : allow = true ∨ a.hasSubstvar = false)
+    (f : Field) (hf : f.kids = a.tree.children) (i j p q : Nat) (hA : Addr f i j p q) :
+    (∀ aq, isIdent aq = true →
+      Rereads a allow f i j p q (setArchqual · aq) (fun x => { x with archqual := some aq }))
+    ∧ (∀ c v, validVersion v = true →
+      Rereads a allow f i j p q (setVersion · (some (c, v))) (fun x => { x with version := .ok (some (c, v)) }))
+    ∧ Rereads a allow f i j p q (setVersion · none) (fun x => { x with version := .ok none })
+    ∧ Rereads a allow f i j p q (fun x => (dropConstraint x).1) (fun x => { x with version := .ok none })
+    ∧ Rereads a allow f i j p q (setArchitectures · []) (fun x => { x with architectures := none })
+    ∧ (∀ x xs, (∀ y ∈ x :: xs, validArch y = true) →
+      Rereads a allow f i j p q (setArchitectures · (x :: xs)) (fun r => { r with architectures := some (x :: xs) }))
+    ∧ (∀ g, (∀ y ∈ g, isIdent (profName y) = true) →
+      Rereads a allow f i j p q (addProfile · g) (fun r => { r with profiles := r.profiles ++ [g] })) := by
+  obtain ⟨rj, gj, flj, h⟩ := C11_addr_relAt a hwf f hf i j p q hA
+  exact C11_reread_setters_wf a hwf allow ha i j rj gj flj h f hf p q hA
+
+/-! ### re-reading after the structural operations at the root, on ANY well-formed field
+
+Operand entries: an ENTRY node that prints a well-formed entry and reads as its alternatives
+(`EntryOperand`; built entries are, `C11_operand_built`; so are parsed ones). -/
+
+theorem C11_operand_built (r : Lossy.Relation) (rest : List Lossy.Relation) (h : ∀ x ∈ r :: rest, ValidRS x) :
+    EntryOperand (entryFromLossy (r :: rest)) (canonRel r) (rest.map fun x => ⟨sp, sp, canonRel x⟩) :=
+  operand_built r rest h
+
+/-- `Relations::insert(i, entry)` before an existing entry: the new entry takes the whitespace in front
+    of that entry, `, ` follows; the text is a well-formed field and re-reads to `S.insert` -/
+theorem C11_reread_insert_wf (a : FieldA) (hwf : a.WF) (allow : Bool) (ha : allow = true ∨ a.hasSubstvar = false)
+    (i : Nat) (hi : i < cntAlts a.segs) (E : RNode) (r0 : RelA) (rest0 : List AltA) (hE : EntryOperand E r0 rest0)
+    (f : Field) (hf : f.kids = a.tree.children) :
+    (∃ a' : FieldA, a'.WF ∧ (f.insert i E).root.text = a'.str)
+    ∧ (readRelaxed (f.insert i E).root.text allow).2 = []
+    ∧ abs (readRelaxed (f.insert i E).root.text allow).1 = S.insert (abs f.root) i (relsOf E) :=
+  reread_insert_before a hwf allow ha i hi E r0 rest0 hE f hf
+
+/-- `Relations::replace(i, entry)`: the call returns, the text is a well-formed field (the part of the
+    old entry's trailing whitespace that was outside its node stays) and re-reads to `S.replace` -/
+theorem C11_reread_replace_wf (a : FieldA) (hwf : a.WF) (allow : Bool) (ha : allow = true ∨ a.hasSubstvar = false)
+    (i : Nat) (hi : i < cntAlts a.segs) (E : RNode) (r0 : RelA) (rest0 : List AltA) (hE : EntryOperand E r0 rest0)
+    (f : Field) (hf : f.kids = a.tree.children) :
+    ∃ f', f.replace i E = .ok f'
+      ∧ (∃ a' : FieldA, a'.WF ∧ f'.root.text = a'.str)
+      ∧ (readRelaxed f'.root.text allow).2 = []
+      ∧ abs (readRelaxed f'.root.text allow).1 = S.replace (abs f.root) i (relsOf E) :=
+  reread_replace a hwf allow ha i hi E r0 rest0 hE f hf
+
+/-- `Relations::push(entry)` on a well-formed field whose last segment holds an entry or a substitution
+    variable (no trailing comma): `, entry` goes right behind that item — in front of the trailing
+    whitespace when the item is a substitution variable; the text re-reads to `S.push` -/
+theorem C11_reread_push_wf (A : List Seg) (s : Seg) (hne : s.entry.isEmpty = false) (hwf : (FieldA.mk (A ++ [s])).WF)
+    (allow : Bool) (ha : allow = true ∨ (FieldA.mk (A ++ [s])).hasSubstvar = false)
+    (E : RNode) (r0 : RelA) (rest0 : List AltA) (hE : EntryOperand E r0 rest0)
+    (f : Field) (hf : f.kids = (FieldA.mk (A ++ [s])).tree.children) :
+    (∃ a' : FieldA, a'.WF ∧ (f.push E).root.text = a'.str)
+    ∧ (readRelaxed (f.push E).root.text allow).2 = []
+    ∧ abs (readRelaxed (f.push E).root.text allow).1 = S.push (abs f.root) (relsOf E) :=
+  reread_push A s hne hwf allow ha E r0 rest0 hE f hf
+
+/-- the layouts the structural operations produce that the theorems above do not cover yet (push after a
+    trailing comma, removal of entries, `Entry::push` / `remove_relation`): printed text and strict
+    re-read on examples with folded lines, odd spacing, trailing commas and substitution variables -/
+def wfld (t : String) : Field := ⟨(readRelaxed t.toList true).1.children, [], []⟩
+def wN : RNode := entryFromLossy [⟨"n".toList, none, none, none, []⟩]
+
+theorem C11_structural_witness :
+    -- push behind a trailing comma, with and without whitespace after it
+    ((wfld "a,").push wN).root.text = "a, n".toList
+    ∧ ((wfld "a ,\n ").push wN).root.text = "a ,\n n".toList
+    ∧ rereadL "a ,\n n".toList = some [[⟨"a".toList, none, none, none, []⟩], [⟨"n".toList, none, none, none, []⟩]]
+    -- push behind a substitution variable followed by whitespace
+    ∧ ((wfld "a, ${x} ").push wN).root.text = "a, ${x}, n ".toList
+    -- removal of the first, a middle and the last entry of a folded field
+    ∧ ((wfld "a ,\n b\t, c").removeEntry 0).map (·.root.text) = .ok "b\t, c".toList
+    ∧ ((wfld "a ,\n b\t, c").removeEntry 1).map (·.root.text) = .ok "a , c".toList
+    ∧ ((wfld "a ,\n b\t, c").removeEntry 2).map (·.root.text) = .ok "a ,\n b\t".toList
+    ∧ rereadL "a ,\n b\t".toList = some [[⟨"a".toList, none, none, none, []⟩], [⟨"b".toList, none, none, none, []⟩]]
+    -- `Entry::push` / `remove_relation` inside a folded entry
+    ∧ ((wfld "a\n | b , c").entryPushAt 0 (toLossless ⟨"n".toList, none, none, none, []⟩)).root.text = "a\n | b | n , c".toList
+    ∧ ((wfld "a\n | b , c").removeRelation 0 0).map (·.root.text) = .ok "b , c".toList := by
+  decide +kernel
 
 /-! ### F-C11-8 (fixed): `Entry::replace` with an operand that carries whitespace -/
 
@@ -808,5 +919,10 @@ example : relAtSegs exA.segs 0 1 = some (⟨"b".toList, none, none, none, []⟩,
     ∧ relAtSegs exA.segs 2 0 = none := by decide +kernel
 example : ∃ p q, Addr exF 1 0 p q := ⟨6, 0, by unfold Addr; decide +kernel⟩
 example : (LOp.setArchqual 5 0 "any".toList).apply exRs = none := by decide +kernel
+
+
+/-- the example field's handles sit on distinct nodes -/
+example : HInj hF := by
+  constructor <;> simp [hF, ESep, RSep]
 
 end Deb822Verif.Props.C11
